@@ -80,6 +80,9 @@ class MemFS:
                 return act
             self.dead = True
             raise Crash(idx, name, args)
+        if act[0] == "short":
+            # the device accepts only a prefix (disk full / quota / file size limit): meaningful for write steps only
+            return act if name == "write" else None
         raise ValueError(act)
 
     # ------------------------------------------------------------------ primitive state access (no steps)
@@ -365,7 +368,8 @@ class MemFS:
         if "w" in mode or "x" in mode:
             self.tick("open_w", p)
             h = self._do_open_w(p, excl="x" in mode)
-            return _Writer(self, p, h)
+            buffering = k.get("buffering", a[0] if a else -1)
+            return _Writer(self, p, h, unbuffered=(buffering == 0))
         raise NotImplementedError(mode)
 
     # composite operations expanded into their steps ------------------------------------------------
@@ -493,8 +497,8 @@ class _Reader:
 
 
 class _Writer:
-    def __init__(self, fs, p, h):
-        self.fs, self.p, self.h, self.closed = fs, p, h, False
+    def __init__(self, fs, p, h, unbuffered=False):
+        self.fs, self.p, self.h, self.closed, self.unbuffered = fs, p, h, False, unbuffered
 
     def write(self, data):
         data = bytes(data)
@@ -509,6 +513,13 @@ class _Writer:
             self.fs._do_write(self.h, data[:n])
             self.fs.dead = True
             raise Crash("torn", self.p, n)
+        if act is not None and act[0] == "short":
+            n = max(0, min(len(data) - 1, act[1] if act[1] >= 0 else len(data) // 2))
+            self.fs._do_write(self.h, data[:n])
+            if self.unbuffered:
+                return n        # a raw (unbuffered) write reports the short count and raises nothing
+            # a buffered writer retries the remainder, and THAT write fails
+            raise _err(E.ENOSPC, self.p)
         self.fs._do_write(self.h, data)
         return len(data)
 
